@@ -132,7 +132,7 @@ type InfoData struct {
 // HandleInfo handles info-page request.
 func (s *ProxyServer) HandleInfo(w http.ResponseWriter, r *http.Request) {
 	data := InfoData{
-		s.p.dist.policy.Name(),
+		s.p.distributor().policy.Name(),
 		stringToHTML(s.p.llWatcher.Source()),
 		stringToHTML(string(s.p.llWatcher.LastJSON())),
 	}
